@@ -48,6 +48,9 @@ def blocks(tier, seed):
     if seed % 3:
         add((2, 3), ALPH[seed % 3], "seed-variant")
         add((5,), ALPH[seed % 3], "seed-variant")
+    # histories: the same field on grids of equal shape but different spacings, in every order, each in a fresh process
+    for shape in ([5], [3, 3], [4, 4], [2, 2, 2], [3, 3, 3]):
+        out.append({"gridseq": True, "shape": shape})
     if tier == "thorough":
         for shape in [(3, 3), (6,), (7,), (2, 4), (4, 2)]:
             add(shape, A, "base")
@@ -56,7 +59,17 @@ def blocks(tier, seed):
     return out
 
 
+SEQ_SPACINGS = {1: [[1.0], [0.5], [1.6]], 2: [[1.0, 1.0], [0.5, 2.0], [2.0, 0.5], [1.6, 1.0], [3.0, 3.0]], 3: [[1.0, 1.0, 1.0], [1.0, 2.0, 0.5], [0.5, 1.0, 2.0], [2.0, 2.0, 2.0]]}
+
+
 def cases(block):
+    if block.get("gridseq"):
+        shape = block["shape"]
+        V = SEQ_SPACINGS[len(shape)]
+        for n in (2, 3):
+            for idx in itertools.permutations(range(len(V)), n):
+                yield {"gridseq": [V[i] for i in idx], "shape": shape}
+        return
     shape, alph, pre = block["shape"], block["alph"], block["prefix"]
     n = int(np.prod(shape))
     for rest in itertools.product(range(len(alph)), repeat=n - len(pre)):
@@ -107,10 +120,45 @@ def full(shape, flat1, fill=np.nan):
     return np.concatenate([[fill], flat1]).reshape(shape)
 
 
+def run_gridseq(case, ctx):
+    from pde import ScalarField
+
+    from droplets import get_structure_factor as gsf
+    from mcx import core
+
+    shape = tuple(case["shape"])
+    f = ((np.arange(int(np.prod(shape))) * 7 % 5) - 1.0).reshape(shape)
+    Sref = ref_sf_full(f).flat[1:]
+    L0 = None
+
+    def body():
+        out = []
+        for dx in case["gridseq"]:
+            g = make_grid(shape, dx, 0.0)
+            k, S = gsf(ScalarField(g, f), smoothing=None)
+            kmin = TWO_PI / max(n * d for n, d in zip(shape, dx))
+            ks, Ss = gsf(ScalarField(g, f), smoothing=0.4 * kmin, wave_numbers=[kmin, 2 * kmin])
+            out.append((np.asarray(k), np.asarray(S), np.asarray(ks), np.asarray(Ss)))
+        return out
+
+    res = core.in_fork(body)
+    alone = [core.in_fork(lambda dx=dx: (lambda g: gsf(ScalarField(g, f), smoothing=0.4 * TWO_PI / max(n * d for n, d in zip(shape, dx)), wave_numbers=[TWO_PI / max(n * d for n, d in zip(shape, dx)), 2 * TWO_PI / max(n * d for n, d in zip(shape, dx))]))(make_grid(shape, dx, 0.0))) for dx in case["gridseq"]]
+    ctx.op(2 * len(res))
+    ctx.count("grid-sequences")
+    for i, (dx, (k, S, ks, Ss)) in enumerate(zip(case["gridseq"], res)):
+        tags = {"history": True, "position": i}
+        ctx.check("C16.k-grid", bool(np.allclose(k, ref_k_full(shape, dx).flat[1:], rtol=1e-13, atol=0)), {"sequence": case["gridseq"], "at": i}, tags)
+        ctx.check("C16.dft-definition", bool(np.allclose(S, Sref, rtol=0, atol=1e-12)), {"sequence": case["gridseq"], "at": i}, tags)
+        ctx.check("C16.smooth-invariance", np.array_equal(np.asarray(alone[i][1]), Ss) and np.array_equal(np.asarray(alone[i][0]), ks), {"what": "history", "sequence": case["gridseq"], "at": i, "alone": alone[i][1], "in_sequence": Ss}, tags)
+
+
 def run_case(case, ctx):
     from pde import ScalarField
 
     from droplets import get_structure_factor as gsf
+
+    if "gridseq" in case:
+        return run_gridseq(case, ctx)
 
     shape, alph = tuple(case["shape"]), case["alph"]
     f = np.array([alph[i] for i in case["cells"]], float).reshape(shape)
@@ -250,4 +298,4 @@ def run_case(case, ctx):
 
 def expected_positive(tier):
     return ["C16.nonneg", "C16.parseval", "C16.dft-definition", "C16.k-grid", "C16.k-scaling", "C16.scale", "C16.shift", "C16.reflect",
-            "C16.reflect-multiset", "C16.permute", "C16.add-zero", "C16.smooth-k", "C16.smooth-invariance", "non-constant-field"]
+            "C16.reflect-multiset", "C16.permute", "C16.add-zero", "C16.smooth-k", "C16.smooth-invariance", "non-constant-field", "grid-sequences"]
